@@ -23,6 +23,7 @@ ALLOWED_TOUCH = {
     A.DISP + "::setup": "setup fan-out",
     A.DISP + "::dispose": "dispose fan-out",
     A.DISP + "::dispatch_thread_local": "the thread-local loop on the caller",
+    A.DISP + "::dispatch": "runs the ordinary, then the thread-local systems (context decided by C12.ORDER)",
     A.DISP + "::try_into_sendable": "emptiness test / drop",
     A.AD + "::setup": "setup fan-out",
     A.AD + "::wait": "the thread-local loop on the caller",
@@ -165,9 +166,11 @@ def context(ctx, report, facts, config, rule="C12.CTX"):
                     pr.append("thread-local systems are run inside a thread-pool combinator (%s): they can leave the calling thread" % site)
             if "tl" in order_ and "inner" in order_[order_.index("tl"):]:
                 pr.append("ordinary systems are dispatched after the thread-local ones")
-            if q.endswith("::dispatch") and q.startswith(A.DISP) and ("tl" not in order_ or "inner" not in order_):
+            from ..semcov import _known_empty, Src
+            no_tl = _known_empty(ev, e, Src(SELF, ["thread_local"]))
+            if q.endswith("::dispatch") and q.startswith(A.DISP) and (("tl" not in order_ and not no_tl) or "inner" not in order_):
                 pr.append("a dispatch does not run both the ordinary and the thread-local systems")
-            if q.endswith("::wait") and ("tl" not in order_ or "inner" not in order_):
+            if q.endswith("::wait") and (("tl" not in order_ and not no_tl) or "inner" not in order_):
                 pr.append("wait does not take the state back before running the thread-local systems")
         report.ob(rule, q.replace(A.C + "::dispatch::", ""), not pr and bool(ends),
                   "thread-local systems run on the caller, after the ordinary ones" if not pr else "; ".join(sorted(set(pr))), site=b.loc(), config=config)
